@@ -23,6 +23,7 @@ pub fn def() -> PropDef {
         flavours: &["tokio"],
         outcome: None,
         extra_profiles: &["C01", "C03", "C05", "C06", "C07", "C12", "C15"],
+        adapt: None,
     }
 }
 
@@ -205,8 +206,9 @@ pub fn check(v: &View) -> Vec<Violation> {
                     // promptly, on the ideal clock: an idle actor notices the last drop in the same instant
                     if ideal && !v.busy_at(a, t0) {
                         let t0_vt = v.vtime_at(t0);
-                        if a.dead.is_none() || a.dead_vt > t0_vt {
-                            out.push(violation(P, "timer-kept-actor-alive", "lingered", format!("actor {aidx}: idle when its last strong handle went away at seq {t0} (t={t0_vt}) with timers registered, but it only terminated at t={} (dead {:?})", a.dead_vt, a.dead)));
+                        let term_vt = v.cbs_of(a).filter(|c| c.cb == Cb::Stopped && c.enter > t0).map(|c| c.enter_vt).next().or(a.dead.map(|_| a.dead_vt));
+                        if term_vt.is_none_or(|t| t > t0_vt) {
+                            out.push(violation(P, "timer-kept-actor-alive", "lingered", format!("actor {aidx}: idle when its last strong handle went away at seq {t0} (t={t0_vt}) with timers registered, but it only began to terminate at t={term_vt:?} (dead {:?})", a.dead)));
                         }
                     }
                     let hd = v.phase_seq(Phase::HandlesDropped);
